@@ -32,7 +32,7 @@ def dbname(platform):
 
 
 def gen(rng, n_tus=None, n_platforms=None, outside=False, missing=0.0, toggles=True, subdir=True,
-        forced=True, computed=True, big=False, findable=False, deep=0, casepair=False, reguard=False, dirdecoy=False, outside_tu=False, updir=False, links=False, oddnames=False, dirlinks=False, dupdirs=False):
+        forced=True, computed=True, big=False, findable=False, deep=0, casepair=False, reguard=False, dirdecoy=False, outside_tu=False, updir=False, links=False, oddnames=False, dirlinks=False, dupdirs=False, builtin_decoy=False):
     """deep=N: the first translation unit also includes a chain of N headers nested N levels deep (each level holds
     code and a macro test; the innermost one defines a macro the translation unit tests afterwards and includes
     ordinary -- possibly missing -- headers).  gcc's nesting limit is 200.
@@ -57,6 +57,9 @@ def gen(rng, n_tus=None, n_platforms=None, outside=False, missing=0.0, toggles=T
     dupdirs: a search directory is named twice on a command: by -I and again by -isystem (a compiler then ignores the
     -I and searches the directory in its -isystem position, i.e. after every other -I directory), or twice by -I (the
     second one is ignored).
+    builtin_decoy: the first translation unit has `#include "iso646.h"` (and <stdbool.h>), which a compiler finds in its own
+    built-in directory (key `builtin_headers`: the check creates such a directory and hands it to gcc only, with -idirafter); files of those names sit in the analysis ROOT, which is on no search path and is not the
+    includer's directory -- they must not be read.
     dirdecoy: a *directory* named like a header sits in a search directory that has no such header file (a compiler
     skips it and keeps searching)."""
     dirs = ["src"] + (["src/sub"] if subdir and rng.random() < 0.7 else []) + INC_DIRS
@@ -207,6 +210,12 @@ def gen(rng, n_tus=None, n_platforms=None, outside=False, missing=0.0, toggles=T
                      ["chain", [["ifdef", "D_DLNK", [["code"]]], ["else", None, [["code"]]]]],
                      ["chain", [["ifdef", "D_DLNK_DECOY", [["code"]]], ["else", None, [["code"]]]]]]
             dirlink_map = {f"{d}/up_inc": "inc/below"}
+        if builtin_decoy and t == 0 and d.startswith("src"):
+            files["iso646.h"] = [["code"], ["define", "D_ROOT_DECOY", None], ["code"]]
+            files["stdbool.h"] = [["code"], ["define", "D_ROOT_DECOY2", None]]
+            body += [["include", "q", "iso646.h"], ["include", "a", "stdbool.h"],
+                     ["chain", [["ifdef", "D_ROOT_DECOY", [["code"]]], ["else", None, [["code"]]]]],
+                     ["chain", [["ifdef", "D_ROOT_DECOY2", [["code"]]], ["else", None, [["code"]]]]]]
         if reguard and t == 0:
             # nothing but the include guard at top level, like a real header
             files[f"{d}/tab.h"] = [["bare"], ["chain", [["ifndef", "TAB_G", [
@@ -267,6 +276,8 @@ def gen(rng, n_tus=None, n_platforms=None, outside=False, missing=0.0, toggles=T
     case = {"files": files, "tus": tus}
     if links and tus and not tus[0]["file"].startswith("@out/"):
         case["flinks"] = link_map
+    if builtin_decoy and "iso646.h" in files:
+        case["builtin_headers"] = ["iso646.h", "stdbool.h"]
     if dirlinks and tus and not tus[0]["file"].startswith("@out/"):
         case.setdefault("flinks", {}).update(dirlink_map)
         case["dirs"] = ["inc/below"]
